@@ -457,10 +457,36 @@ func genCases(r *vh.RNG, clockwise bool) []Case {
 	return out
 }
 
+// corridors: three squares in a row and a fourth one beside the last (two portals straight on, then a turn), in all eight
+// orientations and walked in both directions — every compass direction of leaving a cell followed by a turn to either side
+func corridors() []Case {
+	P := func(x, y int) Pt { return Pt{Q4(4 * x), Q4(4 * y)} }
+	var out []Case
+	for sym := 0; sym < 8; sym++ {
+		tr := func(x, y int) Pt {
+			if sym&1 != 0 {
+				x = -x
+			}
+			if sym&2 != 0 {
+				y = -y
+			}
+			if sym&4 != 0 {
+				x, y = y, x
+			}
+			return P(x, y)
+		}
+		sq := func(x, y int) []Pt { return []Pt{tr(x, y), tr(x+10, y), tr(x+10, y+10), tr(x, y+10)} }
+		mesh := [][]Pt{sq(20, 0), sq(10, 0), sq(0, 0), sq(0, 10)}
+		a, d := tr(29, 1), tr(1, 19)
+		out = append(out, Case{Kind: "corpus", Mesh: mesh, Start: a, Goal: d}, Case{Kind: "corpus", Mesh: mesh, Start: d, Goal: a})
+	}
+	return out
+}
+
 func corpus() []Case {
 	P := func(x, y int) Pt { return Pt{Q4(4 * x), Q4(4 * y)} }
 	H := func(x, y int) Pt { return Pt{Q4(2 * x), Q4(2 * y)} } // halves
-	return []Case{
+	return append(corridors(), []Case{
 		// the package's own example: three 10x10 squares in an L
 		{Kind: "corpus", Mesh: [][]Pt{{P(5, 5), P(15, 5), P(15, 15), P(5, 15)}, {P(15, 5), P(25, 5), P(25, 15), P(15, 15)}, {P(15, 15), P(25, 15), P(25, 25), P(15, 25)}},
 			Start: P(6, 6), Goal: P(24, 24)},
@@ -474,7 +500,7 @@ func corpus() []Case {
 		// around a corner
 		{Kind: "corpus", Mesh: [][]Pt{{P(0, 0), P(2, 0), P(2, 2), P(0, 2)}, {P(2, 0), P(4, 0), P(4, 2), P(2, 2)}, {P(2, 2), P(4, 2), P(4, 4), P(2, 4)}, {P(2, 4), P(4, 4), P(4, 6), P(2, 6)}, {P(0, 4), P(2, 4), P(2, 6), P(0, 6)}},
 			Start: H(1, 1), Goal: H(1, 11)},
-	}
+	}...)
 }
 
 func record(out *vh.Out, c *Case) {
